@@ -20,7 +20,6 @@ import (
 	"errors"
 	"fmt"
 	"io"
-	"maps"
 	"math"
 	"net/http"
 	"net/textproto"
@@ -383,7 +382,11 @@ func grpcAddResponseMeta(contentTypePrefix string, meta responseMeta, headers ht
 }
 
 func grpcWriteEndToTrailers(respEnd *responseEnd, trailers http.Header) {
-	maps.Copy(trailers, respEnd.trailers)
+	// Add, don't replace: in a trailers-only response the destination is the
+	// header map, which may hold headers of the same name.
+	for key, vals := range respEnd.trailers {
+		trailers[key] = append(trailers[key], vals...)
+	}
 	if respEnd.err == nil {
 		trailers.Set("Grpc-Status", "0")
 		trailers.Set("Grpc-Message", "")
